@@ -198,6 +198,11 @@ def exec_io(case):
     with fresh_dir("c08-") as d:
         pio = PyramidIO(d, default_format=fmt)
         img = Image.from_array(arr.copy(), default_format=fmt if fmt != "png" else None)
+        if case.get("previous") and sub is None:
+            # the directory already holds the tiles of an earlier image of the same size: nothing of it may survive
+            prev = make_array(mode, h, w, case["salt"] + 7, [])
+            with toasty_call("tile", "tiling an earlier image into the same directory"):
+                tile_study_image(Image.from_array(prev, default_format=fmt if fmt != "png" else None), pio)
         if sub is None:
             what = f"tile_study_image({w}x{h} {mode} -> {fmt})"
             with toasty_call("tile", what):
@@ -246,6 +251,8 @@ def exec_io(case):
                     raise Violation("existence", f"{what}: tile ({levels},{tx},{ty}) holds image pixels but no file was written")
         other = [f for f in os.listdir(d) if not f.isdigit()]
     cls = [fmt, mode, "sub-image" if sub else "whole", f"levels{levels}"]
+    if case.get("previous") and sub is None:
+        cls.append("re-tiled-directory")
     if fmt == "fits":
         cls.append("bottom-up")
     nt = (w > 256 or h > 256 or w % 256 or h % 256) and True
@@ -263,7 +270,8 @@ def strat_io(draw, tier):
     w = draw(io_sizes) if big else draw(st.one_of(st.integers(1, 600), st.sampled_from([255, 256, 257, 511, 512, 513])))
     h = draw(io_sizes) if big else draw(st.one_of(st.integers(1, 600), st.sampled_from([255, 256, 257, 511, 512, 513])))
     case = {"format": fmt, "mode": mode, "size": [w, h], "salt": draw(st.integers(0, 20)), "route": draw(st.sampled_from(["func", "builder"])),
-            "holes": [[draw(st.integers(0, 40)) for _ in range(4)] + [True] for _ in range(draw(st.integers(0, 2)))]}
+            "holes": [[draw(st.integers(0, 40)) for _ in range(4)] + [True] for _ in range(draw(st.integers(0, 2)))],
+            "previous": draw(st.integers(0, 3)) == 0}
     if draw(st.integers(0, 2)) == 0:
         W = draw(st.integers(w, max(w, 1100)))
         H = draw(st.integers(h, max(h, 1100)))
